@@ -129,6 +129,9 @@ def _ops_tensor(depth):
         "merge-of-flat": lambda T: _second(T, lambda F: F.mergeRanks(coord_style="absolute")),
         "swizzle-of-flat": lambda T: _second(T, lambda F: F.swizzleRanks(list(reversed(F.getRankIds())))),
         "split-of-split": lambda T: _second(T, lambda F: F.splitUniform(1, depth=1), first=lambda T: T.splitUniform(1)),
+        # a split of another rank of a tensor that holds a flattened rank (a list-valued rank id)
+        "split-below-flat": lambda T: _second(T, lambda F: F.splitUniform(1, depth=1)),
+        "split-above-flat": lambda T: _second(T, lambda F: F.splitEqual(1, depth=0), first=lambda T: T.flattenRanks(depth=1)),
         "flatten-of-split": lambda T: _second(T, lambda F: F.flattenRanks(coord_style="absolute"),
                                               first=lambda T: T.splitUniform(1)),
         # the same below the top rank (depth-3 trees)
@@ -200,12 +203,14 @@ def _second(T, op, first=None):
 NEEDS_CONTENT = ("fiber-swap", "fiber-flatten", "fiber-merge", "swap", "flatten", "flatten-linear", "flatten-pair",
                  "merge-absolute", "merge-relative", "flatten-unflatten", "unflatten-of-flat", "fiber-unflatten-of-flat",
                  "flatten-of-flat",
-                 "merge-of-flat", "swizzle-of-flat", "flatten-of-split", "copy-noowner-of-fiber-split") + (
+                 "merge-of-flat", "swizzle-of-flat", "flatten-of-split", "copy-noowner-of-fiber-split", "split-below-flat",
+                 "split-above-flat") + (
     "flatten-d1", "flatten-d1-linear", "merge-d1-absolute", "merge-d1-relative", "swap-d1", "fiber-flatten-d1",
     "fiber-merge-d1", "fiber-swap-d1")
 D1 = ("flatten-d1", "flatten-d1-linear", "merge-d1-absolute", "merge-d1-relative", "swap-d1", "fiber-flatten-d1",
       "fiber-merge-d1", "fiber-swap-d1")
-DEPTH3_ONLY = ("flatten-of-flat", "merge-of-flat", "swizzle-of-flat", "copy-noowner-of-fiber-split") + D1
+DEPTH3_ONLY = ("flatten-of-flat", "merge-of-flat", "swizzle-of-flat", "copy-noowner-of-fiber-split", "split-below-flat",
+               "split-above-flat") + D1
 
 
 def _leaf_ops():
